@@ -56,7 +56,8 @@ class Contract:
 
 
 class InjectCfg:
-    def __init__(self, functions, budget=1, kinds=('wte',), split_store=False, region=None, on_inject=None):
+    def __init__(self, functions, budget=1, kinds=('wte',), split_store=False, region=None, on_inject=None, at_point=None):
+        self.at_point = at_point           # callable(interp, stmt, frame): obligations that must hold at EVERY statement boundary
         self.functions = set(functions)
         self.budget = budget
         self.kinds = tuple(kinds)
